@@ -116,7 +116,12 @@ def _c04f_check(reg, case):
     n = case["n"]
     params = np.array(nasty_floats(rnd, 2 * n + 50)[: 2 * n]).reshape(n, 2)
     losses = np.array(nasty_floats(rnd, n + 50)[:n])
+    # losses of a diverging model / an undefined loss: NaN, +-inf (and the negative zero) are values like any other
+    for v in (np.nan, np.inf, -np.inf, -0.0, np.nan):
+        losses[rnd.randrange(n)] = v
     series = np.array(nasty_floats(rnd, n * 2 * 3 + 50)[: n * 6]).reshape(n, 2, 3, 1)
+    for v in (np.nan, np.inf, -np.inf, -0.0):
+        series[rnd.randrange(n), rnd.randrange(2), rnd.randrange(3), 0] = v
     batch = np.arange(n) // 3
     method = np.arange(n) % 2
     sched, loss = {"k": 1}, {"l": 2}
@@ -164,7 +169,7 @@ def _c04f_check(reg, case):
 
 StandIn("C04/codec-roundtrip", "C04",
         "6 seeded tuples with 300 adversarial doubles each in parameters / losses / series (random bit patterns, "
-        "subnormals, 17-digit boundary cases, scales 1e-20..1e20) through save/load of the JSON/CSV/HDF5 and the SQLite "
+        "subnormals, 17-digit boundary cases, scales 1e-20..1e20; NaN, +-inf and -0.0 among losses and series) through save/load of the JSON/CSV/HDF5 and the SQLite "
         "back-end, compared bit-wise component by component", "60 tuples x 3000 doubles", _c04f_cases, _c04f_check)
 
 
@@ -177,7 +182,9 @@ def _c04c_cases(tier, seed):
         lineup = [("halton", 3)] + [(k, rnd.randint(1, 3))] + \
             ([(rnd.choice(CHEAP), rnd.randint(1, 2))] if rnd.random() < 0.5 else [])
         yield {"lineup": lineup, "E": rnd.choice([1, 2]), "seed": rnd.randrange(1000), "batches": rnd.randint(0, 3),
-               "prior": ["nothing", "same-run", "other-run-longer", "other-run-shorter"][i % 4], "dims": 2}
+               "prior": ["nothing", "same-run", "other-run-longer", "other-run-shorter"][i % 4], "dims": 2,
+               # every third calibrator is restored from the checkpoint calibrate() itself wrote at its last batch
+               "explicit": i % 3 != 1}
 
 
 def _c04c_check(reg, case):
@@ -198,7 +205,8 @@ def _c04c_check(reg, case):
                 cal.calibrate(1)
             if case["batches"]:
                 cal.calibrate(case["batches"])
-            cal.create_checkpoint(d)
+            if case.get("explicit", True) or not case["batches"]:
+                cal.create_checkpoint(d)
             r = Calibrator.restore_from_checkpoint(d, model=e2e.pure_model)
         msgs = []
         msg = compare_calibrators(cal, r)
@@ -216,7 +224,8 @@ def _c04c_check(reg, case):
 
 StandIn("C04/calibrator-roundtrip", "C04",
         "9 seeded calibrators (one per built-in sampler kind in the line-up, 0-3 batches) checkpointed into a folder that "
-        "held nothing / an earlier checkpoint of the same run / a longer or shorter checkpoint of another run, restored and "
+        "held nothing / an earlier checkpoint of the same run / a longer or shorter checkpoint of another run (explicit "
+        "create_checkpoint, or - every third - the checkpoint calibrate() wrote when it returned), restored and "
         "compared attribute by attribute (arrays bit-wise, generator state, scheduler + sampler object graph, loss)",
         "45 calibrators", _c04c_cases, _c04c_check)
 
@@ -261,6 +270,12 @@ def _c06_cases(tier, seed):
     # fault SEQUENCES: an interrupted save followed by a complete one must restore exactly the latest state
     for eff in ("json", "sched", "loss", "csv", "h5"):
         yield {"backend": "json", "effect": eff, "mode": "raise-before", "then_complete": True}
+    # the FIRST save into an empty folder, interrupted in each file (cut in the middle / the results table cut at every
+    # line end): nothing complete is on disk, the restore must fail
+    for eff in ("json", "sched", "loss", "csv", "h5"):
+        yield {"backend": "json", "effect": eff, "mode": "truncate", "first": True}
+    for k in range(0, 7):
+        yield {"backend": "json", "effect": "csv", "mode": "truncate", "first": True, "cut_lines": k}
     # a large previous checkpoint (several MB, beyond SQLite's page cache) and a process that DIES inside the save
     yield {"backend": "sqlite", "effect": "adapter", "mode": "raise", "big": True}
     yield {"backend": "sqlite", "effect": "adapter", "mode": "die", "big": True}
@@ -289,10 +304,11 @@ def _c06_check(reg, case):
     from black_it.calibrator import Calibrator
     from black_it.utils import json_pandas_checkpointing as jp
     with e2e.tmp_folder() as d:
-        cfg = {"lineup": [("halton", 2), ("random", 3)], "E": 1, "seed": 5, "folder": d, "dims": 2}
+        first = bool(case.get("first"))
+        cfg = {"lineup": [("halton", 2), ("random", 3)], "E": 1, "seed": 5, "folder": None if first else d, "dims": 2}
         cal, *_ = e2e.make_calibrator(cfg, model=e2e.pure_model)
         with e2e.quiet():
-            cal.calibrate(2)                      # complete checkpoint S_old on disk
+            cal.calibrate(2)                      # complete checkpoint S_old on disk (not for a FIRST save)
         old = _snapshot(cal)
         cal.saving_folder = None
         with e2e.quiet():
@@ -307,8 +323,15 @@ def _c06_check(reg, case):
         def boom(path):
             if mode == "truncate" and path and os.path.exists(path):
                 size = os.path.getsize(path)
+                keep = max(1, size // 2)
+                if case.get("cut_lines") is not None:     # the text file cut after its k-th line
+                    data = open(path, "rb").read()
+                    ends = [i + 1 for i, b in enumerate(data) if b == 10]
+                    keep = ends[min(case["cut_lines"], len(ends) - 1)] if ends else keep
+                    if keep >= size:
+                        keep = ends[-2] if len(ends) >= 2 else 1
                 with open(path, "r+b") as f:
-                    f.truncate(max(1, size // 2))
+                    f.truncate(keep)
             raise Fault(f"injected crash at {eff}/{mode}")
 
         def j(obj, f, **kw):
@@ -344,9 +367,10 @@ def _c06_check(reg, case):
                 if eff == "h5" and mode in ("a", "w"):
                     if case["mode"] == "truncate":
                         super().__init__(name, mode=mode, **kw)
-                        ds = self["data"]
-                        ds.resize((ds.shape[0] + 2,) + ds.shape[1:])   # resized but the new rows never written
-                        self.close()
+                        if "data" in self:
+                            ds = self["data"]
+                            ds.resize((ds.shape[0] + 2,) + ds.shape[1:])   # resized but the new rows never written
+                        self.close()                                       # (a first save: created, dataset never written)
                     raise Fault("injected crash at h5")
                 super().__init__(name, mode=mode, **kw)
         _json.dump, pickle.dump, pd.DataFrame.to_csv, h5py.File = j, p, c, H5
@@ -378,9 +402,14 @@ def _c06_check(reg, case):
         except Exception:  # noqa: BLE001
             return None  # restore fails with an error: acceptable
         got = _snapshot(r)
-        if _snap_equal(got, old) or _snap_equal(got, new):
+        if (not first and _snap_equal(got, old)) or _snap_equal(got, new):
             return None
         lens = [len(got[k]) for k in ATTRS]
+        if first:
+            return (f"FIRST save into an empty folder interrupted at {eff} ({mode}, cut_lines={case.get('cut_lines')}): the "
+                    f"restore succeeds although no complete checkpoint was ever written - counters "
+                    f"n={got['n_sampled_params']}, batch={got['current_batch_index']}, record lengths {lens} "
+                    f"(the interrupted save was of n={new['n_sampled_params']})")
         return (f"[json-backend-hybrid] save interrupted at {eff} ({mode}): restore succeeds with a mixture - counters "
                 f"n={got['n_sampled_params']}, batch={got['current_batch_index']}, record lengths {lens} "
                 f"(old checkpoint: n={old['n_sampled_params']}, new: n={new['n_sampled_params']})")
